@@ -48,6 +48,7 @@ type lcSpec struct {
 	heartbeat   time.Duration
 	noHeartbeat bool
 	genStart    uint32
+	numTokens   int // 0 = the default (numTokens)
 }
 
 type action struct {
@@ -83,6 +84,10 @@ func buildLifecycler(st *Store, sp lcSpec) *instance {
 	}
 	if sp.noHeartbeat {
 		hb = 0
+	}
+	numTokens := numTokens
+	if sp.numTokens > 0 {
+		numTokens = sp.numTokens
 	}
 	if sp.basic {
 		cfg := ring.BasicLifecyclerConfig{ID: sp.id, Addr: "addr-" + sp.id, Zone: "z", HeartbeatPeriod: hb, HeartbeatTimeout: hbTimeout, TokensObservePeriod: sp.observe, NumTokens: numTokens,
